@@ -68,6 +68,9 @@ type World struct {
 	Seq   uint64
 	// Preempt makes every cooperative lock acquisition a scheduling point.
 	Preempt  bool
+	// PreemptEvery thins the scheduling points out: only every n-th lock operation yields (contended ones always park).
+	PreemptEvery int
+	lockOps      uint64
 	GoPolicy func(site string) GoPolicy
 	GoSeen   map[string]int
 	// OnTaskPanic decides what a panic escaping a task means. Return true if handled.
@@ -532,6 +535,14 @@ func shortFile(s string) string {
 // LockSites makes parked lockers record their call site (slower; used on replay).
 func (w *World) LockSites(on bool) { w.lockSites = on }
 
+func (w *World) preempt() bool {
+	if !w.Preempt {
+		return false
+	}
+	w.lockOps++
+	return w.PreemptEvery <= 1 || w.lockOps%uint64(w.PreemptEvery) == 0
+}
+
 func (w *World) Lock(m *verifseam.Mutex) {
 	t := w.cur
 	if t == nil {
@@ -541,7 +552,7 @@ func (w *World) Lock(m *verifseam.Mutex) {
 	if t.killed {
 		return
 	}
-	if w.Preempt || m.Owner != 0 {
+	if m.Owner != 0 || w.preempt() {
 		t.waitM = m
 		w.site(t)
 		w.park()
@@ -570,7 +581,7 @@ func (w *World) RLock(m *verifseam.RWMutex) {
 		m.Readers++
 		return
 	}
-	if w.Preempt || m.Writer != 0 {
+	if m.Writer != 0 || w.preempt() {
 		t.waitR = m
 		w.site(t)
 		w.park()
@@ -594,7 +605,7 @@ func (w *World) WLock(m *verifseam.RWMutex) {
 	if t.killed {
 		return
 	}
-	if w.Preempt || m.Writer != 0 || m.Readers != 0 {
+	if m.Writer != 0 || m.Readers != 0 || w.preempt() {
 		t.waitW = m
 		w.site(t)
 		w.park()
